@@ -3,6 +3,8 @@ CONSTANTS MAXKILL = 1
  W = 5
  NSTEPS = 5
  CacheMode = "state"
+ Layout = "sparse"
+ CompactMode = "output"
  NpidMode = "maxpid"
 SPECIFICATION Spec
 INVARIANT PidsIncreasing
